@@ -2,7 +2,7 @@
    Pixel elements are words (bit patterns as unsigned integers), get i r c j = pixel_array[i, r, c, j]. *)
 From Coq Require Import String ZArith List Bool QArith.
 From Coq Require Import Permutation Sorted.
-From HD Require Import Base.Val C19_Model C19_Proofs C19_Proofs_Ext.
+From HD Require Import Base.Val C19_Model C19_Proofs C19_Proofs_Ext C19_Proofs_Sess.
 Import ListNotations.
 Open Scope Z_scope.
 
@@ -389,3 +389,66 @@ Example C19_example_ext :
   pm_volume [[0; 0; 8]; [0; 0; 8]] [[1]; [2]] = Err "RuntimeError".
 Proof. exact ext_example. Qed.
 Print Assumptions C19_example_ext.
+
+(* ---- strengthening 3: one image object, many accesses (decoded pixel array cache) ----------- *)
+(* whatever has been accessed before on the same object - in particular the whole pixel array,
+   after which every accessor serves from the cached array - each access answers exactly as on a
+   freshly opened image (all access sequences, all request lists) *)
+Theorem C19_session_transparent : forall w R C M n bytes maps sel center width ops,
+  session w R C M n bytes maps sel center width None ops =
+  map (fun o => fst (exec w R C M n bytes maps sel center width None o)) ops.
+Proof. exact session_transparent. Qed.
+Print Assumptions C19_session_transparent.
+
+(* and a fresh image answers with the functions characterised by the theorems above *)
+Theorem C19_session_fresh : forall w R C M n bytes maps sel center width o,
+  fst (exec w R C M n bytes maps sel center width None o) =
+  match o with
+  | OPixelArray => if 1 <=? n then vz_list2 (decode_all w R C n bytes) else VErr "ValueError"
+  | OStoredFrame f ai => vres vz_list (get_stored_frame w R C n bytes f ai)
+  | OStoredFrames fs ai => vres vz_list2 (get_stored_frames w R C n bytes fs ai)
+  | OFrame rw md voi f ai =>
+      vres vq_list (get_frame_flags w R C M n bytes maps sel rw md voi center width f ai)
+  | OFrames rw md voi fs ai =>
+      vres (fun l => VL (map vq_list l))
+           (get_frames_flags w R C M n bytes maps sel rw md voi center width fs ai)
+  end.
+Proof. exact exec_fresh. Qed.
+Print Assumptions C19_session_fresh.
+
+(* order of a batch of stored frames: position p of the answer holds the frame requested at
+   position p, for ANY request list (not only ascending runs: permutations of a run, repetitions,
+   gaps) and in any reachable state of the object (no cache / whole array cached) *)
+Theorem C19_batch_order : forall w R C n bytes st fs ai out,
+  coherent w R C n bytes st ->
+  s_stored_frames w R C n bytes st (Some fs) ai = Ok out ->
+  length out = length fs /\
+  forall p f, nth_error fs p = Some f ->
+    exists k, std_index n f ai = Ok k /\ nth_error out p = Some (read_frame w R C bytes k).
+Proof. exact stored_frames_position. Qed.
+Print Assumptions C19_batch_order.
+
+(* reordering the request reorders the answer the same way *)
+Theorem C19_batch_permuted : forall w R C n bytes st fs fs' ai out out',
+  coherent w R C n bytes st ->
+  s_stored_frames w R C n bytes st (Some fs) ai = Ok out ->
+  s_stored_frames w R C n bytes st (Some fs') ai = Ok out' ->
+  forall p q f, nth_error fs p = Some f -> nth_error fs' q = Some f ->
+    nth_error out p = nth_error out' q.
+Proof. exact stored_frames_permuted. Qed.
+Print Assumptions C19_batch_permuted.
+
+(* non-vacuity: a warm object and the permuted run [1;3;2;4] *)
+Example C19_example_session :
+  let bytes := [1; 2; 3; 4; 5; 6; 7; 8] in
+  session 1 1 2 1 4 bytes [[("a"%string, MLin 2 0 0 255)]] (SIdx 0) 1 2 None
+    [OStoredFrames (Some [1; 3; 2; 4]) false; OPixelArray; OStoredFrames (Some [1; 3; 2; 4]) false;
+     OStoredFrames (Some [0; 2; 1; 3]) true; OStoredFrame 3 false;
+     OFrames (Some true) None (Some false) (Some [4; 2; 3]) false; OStoredFrames (Some [1; 5]) false;
+     OStoredFrames (Some []) false] =
+  [vz_list2 [[1; 2]; [5; 6]; [3; 4]; [7; 8]]; vz_list2 [[1; 2]; [3; 4]; [5; 6]; [7; 8]];
+   vz_list2 [[1; 2]; [5; 6]; [3; 4]; [7; 8]]; vz_list2 [[1; 2]; [5; 6]; [3; 4]; [7; 8]];
+   vz_list [5; 6]; VL [vq_list [14; 16]%Q; vq_list [6; 8]%Q; vq_list [10; 12]%Q];
+   VErr "IndexError"; VErr "ValueError"].
+Proof. exact session_example. Qed.
+Print Assumptions C19_example_session.
